@@ -29,7 +29,7 @@ var seqKinds = []string{
 	"late", "late",
 	"upclose", "upclose", "uprst",
 	"goaway",
-	"refuse", "refuse-rst", "accept", "accept",
+	"refuse", "refuse-rst", "accept", "accept", "blackhole",
 	"foreign+", "foreign+", "foreign-",
 	"shutdown", "close",
 }
@@ -145,6 +145,10 @@ var minimalHistories = []History{
 	{Kind: pool.Mux, MaxConn: 1, MaxReq: 0, Ops: []Op{{K: "lease"}, {K: "goaway"}, {K: "lease"}, {K: "reply", A: 0}, {K: "upclose", A: 0}, {K: "lease"}, {K: "close"}}},
 	// control: GoAway, the connection drains before anybody asks for a new stream -> the pool closes it
 	{Kind: pool.Mux, MaxConn: 1, MaxReq: 0, Ops: []Op{{K: "lease"}, {K: "goaway"}, {K: "reply"}, {K: "lease"}, {K: "reply"}}},
+	// dials that end by connect_timeout (SYNs swallowed) up to max_connections, then the upstream is back: the pool
+	// owns nothing and must serve max_connections requests again
+	{Kind: pool.PingPong, MaxConn: 2, MaxReq: 0, Ops: []Op{{K: "blackhole"}, {K: "lease"}, {K: "lease"}, {K: "accept"}, {K: "lease"}, {K: "lease"}, {K: "lease"}, {K: "reply"}, {K: "reply"}}},
+	{Kind: pool.HTTP1, MaxConn: 1, MaxReq: 0, Ops: []Op{{K: "lease"}, {K: "blackhole"}, {K: "uprst"}, {K: "lease"}, {K: "accept"}, {K: "lease"}, {K: "reply"}}},
 	// the same shapes on pools where they are fine
 	{Kind: pool.HTTP1, MaxConn: 1, MaxReq: 0, Ops: []Op{{K: "lease"}, {K: "reset"}, {K: "lease"}, {K: "reply"}}},
 	{Kind: pool.PingPong, MaxConn: 2, MaxReq: 1, Ops: []Op{{K: "lease"}, {K: "lease"}, {K: "reply"}, {K: "lease"}}},
